@@ -421,6 +421,22 @@ def failed_flush_leaves_valid_index():
     return db.index.valid and n_index != n_file, f"index count={n_index} storage rows={n_file} index.valid={db.index.valid}"
 
 
+
+@witness
+def falsy_invalid_update_argument_is_ignored():
+    """C14.R2: a falsy wrongly-typed static update argument is treated as `not given` instead of being rejected."""
+    db = mem()
+    db.insert(Point(time=T0, tags={"a": "x"}, fields={"f": 1}))
+    msgs = []
+    for kw in ({"time": 0}, {"time": ""}, {"measurement": 0}, {"measurement": []}):
+        try:
+            n = db.update(TagQuery().a == "x", fields={"f": 2}, **kw)
+            msgs.append(f"{kw} accepted (returned {n})")
+        except (ValueError, TypeError) as e:
+            msgs.append(f"{kw} rejected")
+    return any("accepted" in m for m in msgs), "; ".join(msgs)
+
+
 def main():
     names = sys.argv[1:] or list(W)
     for n in names:
